@@ -46,6 +46,8 @@ impl ElementBuilder {
 struct DocumentBuilder {
     tree: NodeId,
     current_node_id: NodeId,
+    // the names of the open elements as written in their start tags
+    open_names: Vec<(String, String)>,
     name_id_builder: NameIdBuilder,
     element_builder: Option<ElementBuilder>,
     seen_ids: HashSet<String>,
@@ -62,6 +64,7 @@ impl DocumentBuilder {
         DocumentBuilder {
             tree: document,
             current_node_id: document,
+            open_names: Vec::new(),
             name_id_builder,
             element_builder: None,
             seen_ids: HashSet::new(),
@@ -149,6 +152,10 @@ impl DocumentBuilder {
     ) -> Result<(NodeId, Span, AttributeSpans), ParseError> {
         let element_builder = self.element_builder.take().unwrap();
         let span = element_builder.span;
+        self.open_names.push((
+            element_builder.prefix.clone(),
+            element_builder.name.clone(),
+        ));
 
         self.name_id_builder
             .push(element_builder.namespaces.clone());
@@ -257,6 +264,7 @@ impl DocumentBuilder {
     }
 
     fn close_element_immediate(&mut self, xot: &mut Xot) -> NodeId {
+        self.open_names.pop();
         let current_node = xot.arena.get(self.current_node_id).unwrap();
         if matches!(current_node.get(), Value::Element(_)) {
             self.name_id_builder.pop();
@@ -272,22 +280,28 @@ impl DocumentBuilder {
         name: StrSpan,
         xot: &mut Xot,
     ) -> Result<NodeId, ParseError> {
-        let name_id = self
-            .name_id_builder
-            .element_name_id(&prefix, &name, prefix.into(), xot)?;
-        let current_node = xot.arena.get(self.current_node_id).unwrap();
-        if let Value::Element(element) = current_node.get() {
-            if element.name_id != name_id {
-                return Err(ParseError::InvalidCloseTag(
-                    prefix.to_string(),
-                    name.to_string(),
-                    Span::from_prefix_name(prefix, name),
-                ));
-            }
-            self.name_id_builder.pop();
+        let invalid_close_tag = || {
+            ParseError::InvalidCloseTag(
+                prefix.to_string(),
+                name.to_string(),
+                Span::from_prefix_name(prefix, name),
+            )
+        };
+        // the end tag has to repeat the name as written in the start tag; if
+        // there is no open element this is a stray end tag
+        match self.open_names.last() {
+            Some((open_prefix, open_name))
+                if open_prefix == prefix.as_str() && open_name == name.as_str() => {}
+            _ => return Err(invalid_close_tag()),
         }
+        let current_node = xot.arena.get(self.current_node_id).unwrap();
+        if !matches!(current_node.get(), Value::Element(_)) {
+            return Err(invalid_close_tag());
+        }
+        self.open_names.pop();
+        self.name_id_builder.pop();
         let closed_node_id = self.current_node_id;
-        self.current_node_id = current_node.parent().expect("Cannot close document node");
+        self.current_node_id = current_node.parent().ok_or_else(invalid_close_tag)?;
         Ok(closed_node_id)
     }
 
